@@ -1,7 +1,7 @@
 (* Correspondence checker for SimultaneousEating.bistochastic / ProbabilisticSerial.bistochastic (C05). *)
 From Coq Require Import Arith ZArith QArith List Bool.
 Import ListNotations.
-From SCK Require Import Argsort Eat3 EatFinal.
+From SCK Require Import Argsort Eat3 EatFinal EatSnap.
 From SCK Require Eating.
 
 Definition eat_case : Type := (list (list okey) * list Q * list (list Q))%type.
@@ -10,3 +10,5 @@ Definition chk_eat (c : eat_case) : bool :=
   let n := length P in
   (1 <=? n)%nat && forallb (fun row => (length row =? n)%nat) P && forallb (fun s => negb (Qle_bool s 0)) speeds && (length speeds =? n)%nat &&
   match eating_run P speeds with Some Xm => Eating.mclose (1 # 10000000) Xm E | None => false end.
+(* informational: does the exact run stay outside the code's snapping windows (the hypothesis of gen/EatLoopGenProof.gen_eat_is_model)? *)
+Definition chk_eat_ok (c : eat_case) : bool := let '(P, speeds, _) := c in eat_run_ok P speeds.
